@@ -54,6 +54,10 @@ func main() {
 	case "multi":
 		setupLogger()
 		runMultiNode(os.Args[2:])
+	case "config":
+		runConfig(os.Args[2:])
+	case "config-child":
+		runConfigChild(os.Args[2:])
 	default:
 		fmt.Fprintln(os.Stderr, "unknown engine", os.Args[1])
 		os.Exit(2)
